@@ -20,11 +20,19 @@ Proof. intros s W. repeat split; auto using read_guard_eq, write_guard_eq, write
 Print Assumptions C15_guards_are_code.
 
 Theorem C15_notifications_are_code :
-  unotes "read" = [CVU_tellg] /\ unotes "seekg" = [CVU_tellg] /\ unotes "write@bytes" = [CVU_tellp] /\
+  unotes "read" = [CVU_tellg; CVU_tellg] /\ unotes "seekg" = [CVU_tellg] /\ unotes "write@bytes" = [CVU_tellp] /\
   unotes "write@container" = [CVU_tellp] /\ unotes "abort" = [CVU_tellg; CVU_tellp] /\ unotes "setFileSize" = [CVU_tellp] /\
   unotes "nextLogContainer" = [] /\ unotes "dropOldData" = [] /\ unotes "setBufferSize" = [] /\ unotes "setDefaultLogContainerSize" = [].
 Proof. exact notes_eq. Qed.
 Print Assumptions C15_notifications_are_code.
+
+(* read(n) first raises the buffer size to n when the request is larger (and tells the writer), then waits:
+   the statement as it stands in the source *)
+Theorem C15_read_grows_buffer : exists pred rest,
+  umeth "read" = TSeq TLock (TSeq (TIf (XBin OGt (XArg I64) (XVar 5)) (TSeq (TSet 5 (XArg I64)) (TNotify CVU_tellg)) TSkip) (TSeq (TWait CVU_tellp pred) rest))
+  /\ nth_error (map (fun x => fst (fst x)) uf_vars) 5 = Some "m_bufferSize"%string.
+Proof. exact read_grows_buffer. Qed.
+Print Assumptions C15_read_grows_buffer.
 
 (* dropping old data never discards a byte that has not been read: for every container list *)
 Theorem C15_drop_keeps_unread : forall s x, u_tellg s <= x ->
@@ -55,7 +63,7 @@ Theorem C15_read_counts : forall s n,
   0 <= u_gcount s' <= Z.max 0 n /\ (u_fsz s < n + u_tellg s -> u_tellg s' <= Z.max (u_tellg s) (u_fsz s)) /\
   (u_fsz s < n + u_tellg s -> uf_good s' = false /\ uf_eof s' = true) /\ (n + u_tellg s <= u_fsz s -> 0 < n -> uf_good s' = true /\ uf_eof s' = false) /\
   (n + u_tellg s <= u_fsz s -> n <= 0 -> u_rd s' = u_rd s) /\
-  u_tellp s' = u_tellp s /\ u_data s' = u_data s /\ u_fsz s' = u_fsz s /\ notes = [CVU_tellg].
+  u_tellp s' = u_tellp s /\ u_data s' = u_data s /\ u_fsz s' = u_fsz s /\ u_buf s' = Z.max (u_buf s) n /\ In CVU_tellg notes.
 Proof. exact read_counts. Qed.
 Print Assumptions C15_read_counts.
 
